@@ -53,12 +53,13 @@ def bin_cases(draw):
         data = draw(gen.complex_array(shape, kind="dyadic"))
     else:
         data = draw(gen.float_array(shape, kind="dyadic", dtype=dt))
-    return {"data": data, "n": n, "n_as": draw(st.sampled_from(["int", "float", "np"]))}
+    return {"data": data, "n": n, "n_as": draw(st.sampled_from(["int", "float", "np", "float_below", "float_above", "float32"]))}
 
 
 def bin_body(ctx, case):
     data, n = case["data"], case["n"]
-    nn = {"int": n, "float": float(n), "np": np.int64(n)}[case["n_as"]]
+    # a bin factor computed as a ratio of two lengths (0.3 / 0.1 = 2.9999999999999996) is the integer next to it
+    nn = {"int": n, "float": float(n), "np": np.int64(n), "float_below": float(np.nextafter(float(n), 0.0)), "float_above": float(np.nextafter(float(n), np.inf)), "float32": np.float32(n)}[case["n_as"]]
     ctx.case(case, nontrivial=n >= 2 and data.ndim >= 3, classes=["n%d" % n, "rank%d" % data.ndim, str(data.dtype)])
     d0 = data.copy()
     out = I().binImgs(data, nn)
@@ -172,6 +173,18 @@ def zoom_body(ctx, case):
     ctx.close(zr, XN, 1e-9, "%s of a first-axis ramp is the first-axis ramp on the new grid" % case["entry"], scale=float(n))
     rampy = Y.copy()
     ctx.close(f(rampy, target, order), YN, 1e-9, "%s of a second-axis ramp is the second-axis ramp on the new grid" % case["entry"], scale=float(ny))
+    # detector counts in their native integer containers are numbers like any others: a quadratic that is >= 0 at every
+    # node (so it fits an unsigned type) and negative between two of them is still reproduced exactly, and arbitrary counts
+    # give what the same counts give as float64
+    k1, k2 = (n - 1) // 2, (ny - 1) // 2
+    quad = lambda A, B: (A - k1) * (A - k1 - 1) + (B - k2) * (B - k2 - 1)
+    qi = quad(X, Y)
+    for dt in (("uint8", "uint16") if qi.max() <= 255 else ("uint16",)) + ("int32",):
+        if order >= 3:
+            ctx.close(f(qi.astype(dt), target, order), quad(XN, YN), 1e-9, "%s reproduces a quadratic given as %s counts (non-negative at the nodes, negative between two of them)" % (case["entry"], dt), scale=float(qi.max()) or 1.0, name="integer-typed polynomial")
+        counts = np.floor(np.abs(noise) * 97).astype(np.int64) % 200
+        ctx.close(f(counts.astype(dt), target, order), f(counts.astype(np.float64), target, order), 1e-12, "%s(%s counts) == %s(the same counts as float64)" % (case["entry"], dt, case["entry"]), scale=200.0, name="zoom storage type")
+    ctx.classes["integer_containers"] += 1
 
 
 def zoom_badorder_body(ctx, case):
